@@ -111,3 +111,8 @@ CHECKS["C11"] = dict(level=MC, engine="E1", design_ref="DESIGN.md section 3 C11"
    technique="exhaustive exploration of all operation sequences up to length k on a self-loop state graph (one state per base tree), identity-based deep snapshot as invariant plus result-independence check",
    text="For 38 base trees (tests/data/eml.xml, generated witnesses, trees with markup characters / pre-escaped entities / para tags, invalid trees, trees with extras, prefixes and shared namespace maps) every sequence of up to 2 (3) of 22 read-only operation groups (both validators in both modes on the tree and on every node, evaluation, three JSON/XML exporters each, both graph renderers, str/repr, every search query on every node, insertion-index and allowed-child queries for every parent x candidate, structural comparison) is executed on a fresh tree; the snapshot of every field of every node, child and parent identities and the registry must never change and results must not depend on what ran before.",
    note="Sequence length k and the set of base trees are the bound; nsmap dict aliasing is not part of the snapshot (not observable).")
+
+CHECKS["C19"] = dict(level=EX, engine="E3", design_ref="DESIGN.md section 3 C19",
+   technique="exhaustive enumeration of a parametric valid EML tree over the knobs each evaluator reads (full product per evaluator, all pairs across evaluators) plus generated witnesses and their one-mutation neighbours, against an independent re-statement of the recommendations",
+   text="A valid EML tree (checked by validate.tree) is varied over every knob on and around each threshold: abstract form x 0/1/19/20/21 words, title 0/1/4/5/6 words in and outside a dataset, keyword sets 0/4/5/2+2/2+3/6, each responsible-party kind x user id {none, ORCID, other, empty, both} x e-mail x name, entity descriptions, data-table physical/size/checksum/record count/record delimiter (direct and under textFormat), descriptions under every listed known parent; evaluate.tree and evaluate.node must not raise, must append only (code, message, node) triples after existing entries, and the multiset of (code, node) must equal the independent oracle. Witness trees and their mutants built from known names extend totality.",
+   note="Unspecified zones (listed in the evidence assumptions) are skipped per node, not per tree; message strings are not compared.")
